@@ -4,6 +4,7 @@ use serde_json::{Value, json};
 use std::io::{BufRead, Write};
 
 mod ops_argv;
+mod ops_context;
 mod ops_descriptor;
 mod ops_env;
 mod ops_graph;
@@ -11,10 +12,14 @@ mod ops_inventory;
 mod ops_layer;
 mod ops_parse;
 mod ops_runner;
+mod ops_runtime;
 mod ops_serde;
 mod ops_writer;
 
 fn main() {
+    if let Ok(req) = std::env::var("VERIF_RUNTIME") {
+        ops_runtime::child(&req);
+    }
     if let Ok(req) = std::env::var("VERIF_DESCRIPTOR") {
         ops_descriptor::child(&req);
     }
@@ -58,6 +63,7 @@ fn dispatch(op: &str, req: &Value) -> Value {
         "argv" => ops_argv::run(req),
         "runner-scenario" => ops_runner::run(req),
         "normalize-descriptor" => ops_descriptor::run(req),
+        "runtime" => ops_runtime::run(req),
         "dep-graph" => ops_graph::run(req),
         _ => json!({"error": format!("unknown op {op}")}),
     }
